@@ -159,7 +159,7 @@ def check(case):
     with env.scratch() as d:
         Ts = G.build_probes(case, d)
         before = [D.sha_dir(T.dir) for T in Ts]
-        runs = [(Ts, d / 'merged')]
+        runs = [(Ts, G.out_dir_for(case, d))]
         if case.get('again') == 'same':
             runs.append((Ts, d / 'merged2'))
         elif case.get('again') == 'reversed':
